@@ -5,7 +5,9 @@ From AJ Require Import Model.Base Model.Value Model.JsonParse.
 From AJ Require Import Spec.Rfc8259 Spec.ParseSpec Spec.FilterSpec Proofs.Lex Proofs.ParseComplete Proofs.FilterProofs.
 From AJ Require Import Model.MsgPack Spec.MsgPackSpec Proofs.MsgPackFilter.
 
-(* for every text of the grammar (within the limits) and EVERY filter document f, the filtered run succeeds
+(* for every text of the grammar (within the limits: nesting, 63-character numbers, strings and keys of at most
+   65535 decoded bytes — for the discarded parts the last limit is stronger than needed, they are skipped, not
+   stored) and EVERY filter document f, the filtered run succeeds
    and yields exactly project f v, where v is what the unfiltered run yields (C01_valid_json_denotes) and
    project (Spec/FilterSpec.v) is written from the property text: true keeps; object filters keep listed
    members with a true-ish entry, "*" for unlisted keys; array filters apply their first element; null/false
